@@ -39,7 +39,7 @@ def gen_op(rng):
     r = rng.random()
     if r < 0.32:
         name = rng.choice(list(INT_OPS))
-        return (name, V.rand_int(rng, INT_OPS[name], allow_over=True))
+        return (name, V.intlike(rng, V.rand_int(rng, INT_OPS[name], allow_over=True)))
     if r < 0.38:
         return ("add_bytes", bytes(rng.randrange(256) for _ in range(rng.randrange(0, 6))))
     if r < 0.5:
